@@ -641,11 +641,20 @@ func commentRuleSSA(r *Run, rule string) {
 			}
 			return constant.MakeInt64(int64(c)), true
 		}
-		pw := &pathWalker{loadHook: hook, inline: lm.inlinePolicy(lm.inside), unroll1: true, maxPaths: 5000}
+		// (a comment loop that lives in its own function is walked in line here)
+		base := lm.inlinePolicy(lm.inside)
+		inline := func(caller, callee *ssa.Function) bool {
+			if base(caller, callee) {
+				return true
+			}
+			return callee.Pkg == lm.inside.Pkg && callee != lm.skipper && callee != lm.readChar && callee != lm.peekChar && callee != lm.inside && callee != lm.outer &&
+				lm.hasLoop[callee] && callee.Signature.Results().Len() == 0 && callee.Signature.Params().Len() == 0
+		}
+		pw := &pathWalker{loadHook: hook, inline: inline, unroll1: true, maxPaths: 5000, stopCall: lm.redispatchStop(lm.inside)}
 		pw.walk(lm.inside)
 		ended := false
 		for _, p := range pw.paths {
-			if p.end != "return" {
+			if p.end != "return" && p.end != "stop" {
 				continue
 			}
 			reads := 0
@@ -886,6 +895,7 @@ func stringScannerRuleSSA(r *Run, rule string) {
 		var scan *ssa.Function
 		var site *ssa.Call
 		var sitePath *pwPath
+		outerUnescapes := 0
 		for _, tp := range lm.tokenPaths(lm.inside, q, true) {
 			if tp.litScanFn == nil || tp.p == nil {
 				continue
@@ -893,6 +903,7 @@ func stringScannerRuleSSA(r *Run, rule string) {
 			for _, ev := range tp.p.events {
 				if c, ok := ev.(*ssa.Call); ok && c.Call.StaticCallee() == tp.litScanFn {
 					scan, site, sitePath = tp.litScanFn, c, tp.p
+					outerUnescapes = tp.litUnescapes
 				}
 			}
 		}
@@ -998,6 +1009,9 @@ func stringScannerRuleSSA(r *Run, rule string) {
 			prev := know{}
 			prevLicensedBackslash := false
 			for i := range reads {
+				if len(p.marks) > 0 && reads[i] >= p.marks[0].nEvents {
+					break // the next iteration (explored only as far as the forced exit): judged on its own paths
+				}
 				nReads++
 				if i == 0 {
 					// the first movement: over the opening quote / the byte the previous iteration examined
@@ -1023,14 +1037,22 @@ func stringScannerRuleSSA(r *Run, rule string) {
 				}
 				prev = k
 			}
-			if len(reads) > 0 && p.revisits > 0 {
+			if len(reads) > 0 && len(p.marks) > 0 {
 				// round the loop: the byte under the cursor was found not to be the closing quote
-				nRound++
-				last := len(reads) - 1
-				k := window(p.evDecided[reads[last]], len(p.decisions), readCallAt(last))
-				// (the forced exit decision of the unrolling comes after the revisit; the window may include it: it is about ch == 0)
-				if !k.notQuote {
-					addBad("the loop goes round without having compared the current byte with the closing quote")
+				// (between the last cursor movement before the loop went round and that moment)
+				mk := p.marks[0]
+				last := -1
+				for i, ei := range reads {
+					if ei < mk.nEvents {
+						last = i
+					}
+				}
+				if last >= 0 {
+					nRound++
+					k := window(p.evDecided[reads[last]], mk.nDecisions, readCallAt(last))
+					if !k.notQuote {
+						addBad("the loop goes round without having compared the current byte with the closing quote")
+					}
 				}
 			}
 			if p.end == "return" && len(p.results) == 1 {
@@ -1040,36 +1062,27 @@ func stringScannerRuleSSA(r *Run, rule string) {
 					sl, ok := p.resolve(v).(*ssa.Slice)
 					return ok && lm.isFieldLoad(p, p.resolve(sl.X), lm.inputIdx)
 				}
+				// layers of un-escaping: in the scanner itself plus in the token function around its call
+				layers, okForm := outerUnescapes, true
+				v := ssa.Value(res)
+				for i := 0; i < 3; i++ {
+					n, inner, ok := unescapeLayer(p, v)
+					if n == 0 {
+						break
+					}
+					if !ok {
+						okForm = false
+					}
+					layers++
+					v = p.resolve(inner)
+				}
 				switch {
-				case isInputSlice(res):
-					if q == '"' {
-						addBad("the double-quoted scanner returns the raw bytes: \\\" must stand for a quote")
-					}
-				default:
-					call, ok := res.(*ssa.Call)
-					pkg, fname := "", ""
-					if ok {
-						pkg, fname = staticCalleeName(call)
-					}
-					isReplace := ok && pkg == "strings" && (fname == "Replace" || fname == "ReplaceAll") && len(call.Call.Args) >= 3 && isInputSlice(call.Call.Args[0])
-					if isReplace {
-						from, ok1 := p.constOf(call.Call.Args[1])
-						to, ok2 := p.constOf(call.Call.Args[2])
-						if !ok1 || !ok2 || from.Kind() != constant.String || to.Kind() != constant.String || constant.StringVal(from) != "\\\"" || constant.StringVal(to) != "\"" {
-							isReplace = false
-						}
-						if fname == "Replace" && len(call.Call.Args) == 4 {
-							if n, ok := p.constOf(call.Call.Args[3]); !ok || constant.Sign(n) >= 0 {
-								isReplace = false
-							}
-						}
-					}
-					switch {
-					case isReplace && q == '`':
-						addBad("the back-quoted scanner rewrites the bytes between the quotes (back-quoted strings are taken raw)")
-					case !isReplace:
-						addBad("the scanner's result is not the input between the quotes (raw for back-quoted strings, with \\\" replaced by \" for double-quoted ones)")
-					}
+				case !okForm || !isInputSlice(v):
+					addBad("the scanner's result is not the input between the quotes (raw for back-quoted strings, with \\\" replaced by \" for double-quoted ones)")
+				case q == '`' && layers != 0:
+					addBad("the back-quoted scanner rewrites the bytes between the quotes (back-quoted strings are taken raw)")
+				case q == '"' && layers != 1:
+					addBad("the double-quoted string is not un-escaped exactly once: \\\" must stand for a quote")
 				}
 			}
 		}
